@@ -6,6 +6,7 @@ package fluentdforward
 
 import (
 	"errors"
+	"io"
 	"net"
 	"time"
 
@@ -76,11 +77,15 @@ type verifDeadlineConn struct {
 	wantRead, wantWrite         time.Time
 	reads, writes               int
 	failSet                     bool
+	readErr                     error // what a read from the silent upstream ends with (nil: the scripted write error)
 }
 
 func (c *verifDeadlineConn) Read(p []byte) (int, error) {
 	c.reads++
 	sym.Assert(c.readDeadline.Equal(c.wantRead), "a read from the upstream runs under the read deadline given for this operation")
+	if c.readErr != nil {
+		return 0, c.readErr
+	}
 	return 0, errVerifWrite
 }
 
@@ -150,8 +155,13 @@ func VerifC02_ConnectionDeadlines() {
 			sym.Assert(conn.failSet || (err == nil && conn.writes > writes), "the ping is written")
 		case 2:
 			conn.wantRead = d
-			_, err = fconn.ReadChunkAck(d)
+			// no ACK ever arrives on this connection: the read ends with a timeout / reset, or with EOF because the
+			// upstream closed the connection (restart, idle close) after it had received the chunk
+			conn.readErr = []error{nil, io.EOF, io.ErrUnexpectedEOF}[sym.Choice("readEndsWith", 3)]
+			var ack string
+			ack, err = fconn.ReadChunkAck(d)
 			sym.Assert(conn.failSet || conn.reads > reads, "the ACK is read from the socket")
+			sym.Assert(err != nil && ack == "", "a read that ends without an ACK - the upstream closing the connection included - is an error, never an (empty, positional) acknowledgement")
 		}
 		if conn.failSet {
 			sym.Assert(err != nil && conn.reads == reads && conn.writes == writes, "a deadline that cannot be set is reported and the operation is not attempted")
